@@ -30,6 +30,12 @@ def make_case(rng, thorough=False):
     inputs = gen.complete_inputs(rng, g, required, optional, provide_optional=0.45)
     # occasionally leave a required input out of an otherwise valid run?  no: C08 owns rejection.
     run = {"runner": rng.choice(["sync", "async"]), "inputs": inputs, "error_handling": "continue"}
+    outs = [o for n in g["nodes"] for o in n["outputs"]]
+    if outs and rng.random() < 0.2:
+        # the graph carries a default selection and the run asks for everything: every node still gets its bound / default
+        # arguments, whatever the default selection would have needed
+        g["selected"] = rng.sample(outs, rng.randint(1, min(2, len(outs))))
+        run["select"] = "**"
     return g, run
 
 
